@@ -8,6 +8,7 @@ import (
 	"fmt"
 	"io"
 	"os"
+	"path/filepath"
 	"strings"
 
 	"verif/mb"
@@ -24,6 +25,10 @@ type c12Case struct {
 	Prod    string `json:"prod"`               // producer that fails ("" = none)
 	ProdHow int    `json:"prod_how"`           // 1 before data, 2 after half, 3 after all data
 	ErrKind int    `json:"err_kind,omitempty"` // which error value the failing producer returns (index into c12Errs)
+	// File > 0: the file-based entry points — 1 WriteToFile("/dev/full") (every write fails with ENOSPC), 2 WriteToFile
+	// into a directory that does not exist, 3 WriteToFile to a regular file while producer Prod fails, 4 WriteToTempFile
+	// while producer Prod fails
+	File int `json:"file,omitempty"`
 }
 
 var c12Text = []byte("Line one of the text.\r\nA second line with = equals and trailing blank \r\n.dot at line start\r\nLast line without newline")
@@ -124,6 +129,52 @@ func c12Exec(r *vf.Run, k c12Case) (keys, whats []string) {
 	m, err := mb.Build(spec, hooks)
 	if err != nil {
 		r.HarnessError("C12 build: %v", err)
+		return
+	}
+	if k.File > 0 {
+		cls := "shape=" + c12ShapeClass(spec)
+		dir := filepath.Join(os.Getenv("VERIF_WORK"), fmt.Sprintf("c12-%d", os.Getpid()))
+		if os.Getenv("VERIF_WORK") == "" {
+			dir = filepath.Join(os.TempDir(), fmt.Sprintf("verif-c12-%d", os.Getpid()))
+		}
+		_ = os.MkdirAll(dir, 0o755)
+		var ferr error
+		what := ""
+		pan, pw := vf.Guard(func() {
+			switch k.File {
+			case 1:
+				what = "WriteToFile(\"/dev/full\")"
+				ferr = m.WriteToFile("/dev/full")
+			case 2:
+				what = "WriteToFile(<missing directory>/x.eml)"
+				ferr = m.WriteToFile(filepath.Join(dir, "no-such-directory", "x.eml"))
+			case 3:
+				what = "WriteToFile while producer " + k.Prod + " fails"
+				prodOn = true
+				p := filepath.Join(dir, fmt.Sprintf("f-%d-%d.eml", k.Shape, k.ProdHow))
+				ferr = m.WriteToFile(p)
+				_ = os.Remove(p)
+			case 4:
+				what = "WriteToTempFile while producer " + k.Prod + " fails"
+				prodOn = true
+				var p string
+				p, ferr = m.WriteToTempFile()
+				if p != "" {
+					_ = os.Remove(p)
+				}
+			}
+		})
+		if pan {
+			add("panic/"+vf.PanicSite(pw), fmt.Sprintf("%s panicked (%s): %s", what, spec.Describe(), firstLine(pw)))
+			return
+		}
+		if k.File >= 3 && !prodFired {
+			r.HarnessError("C12 file case %+v: the producer fault did not fire", k)
+			return
+		}
+		if ferr == nil {
+			add(fmt.Sprintf("silent-success/file-api=%d/%s", k.File, cls), fmt.Sprintf("%s returned nil although the destination / a producer failed (%s)", what, spec.Describe()))
+		}
 		return
 	}
 	if k.Second {
@@ -232,7 +283,7 @@ func init() {
 	vf.Register(&vf.Check{
 		ID: "C12", Title: "render failures are reported — never a panic, never silent success",
 		Run: func(r *vf.Run) {
-			r.SetRule("22 message shapes (5 of them on a Msg object that carried other content before, was rendered and Reset(); single QP/base64/8bit/7bit, alternative, with description, related, mixed, all three levels, attachment-only ×1/×2, S/MIME ×2, mixed encodings, fixed boundary) × render {first, second} × a sink that starts failing at EVERY byte offset k of the output × {accepts the prefix then errors, rejects the whole write}; every producer × {fails before data, after half, after all data} × 8 error values (generic, io.EOF plain and wrapped, io.ErrUnexpectedEOF, context.Canceled, …); (thorough) producer failure × sink failure on an 8-byte grid; oracle: no panic, err != nil iff something failed, returned count = bytes the sink accepted; distinct by case tuple")
+			r.SetRule("22 message shapes (5 of them on a Msg object that carried other content before, was rendered and Reset(); single QP/base64/8bit/7bit, alternative, with description, related, mixed, all three levels, attachment-only ×1/×2, S/MIME ×2, mixed encodings, fixed boundary) × render {first, second} × a sink that starts failing at EVERY byte offset k of the output × {accepts the prefix then errors, rejects the whole write}; every producer × {fails before data, after half, after all data} × 8 error values (generic, io.EOF plain and wrapped, io.ErrUnexpectedEOF, context.Canceled, …); the file entry points: WriteToFile onto /dev/full (every write fails), into a missing directory, and WriteToFile / WriteToTempFile while each producer fails; (thorough) producer failure × sink failure on an 8-byte grid; oracle: no panic, err != nil iff something failed, returned count = bytes the sink accepted; distinct by case tuple")
 			r.Assume("a sink returns n <= len(p) and a non-nil error when n < len(p)", "S/MIME output length varies per signature; offsets beyond the actual length are fault-free runs")
 			shapes := c12Shapes()
 			var cases []c12Case
@@ -263,6 +314,17 @@ func init() {
 						}
 					}
 					cases = append(cases, c12Case{Shape: si, Second: second, SinkAt: -1})
+					if !second {
+						if _, serr := os.Stat("/dev/full"); serr == nil {
+							cases = append(cases, c12Case{Shape: si, SinkAt: -1, File: 1})
+						}
+						cases = append(cases, c12Case{Shape: si, SinkAt: -1, File: 2})
+						for _, p := range c12Producers(spec) {
+							for how := 1; how <= 3; how++ {
+								cases = append(cases, c12Case{Shape: si, SinkAt: -1, Prod: p, ProdHow: how, File: 3}, c12Case{Shape: si, SinkAt: -1, Prod: p, ProdHow: how, File: 4})
+							}
+						}
+					}
 					for _, p := range c12Producers(spec) {
 						for how := 1; how <= 3; how++ {
 							for ek := range c12Errs {
